@@ -4,7 +4,7 @@ from ..rules import r10, r6p
 
 
 def run(ctx: Ctx) -> list[Ob]:
-    return r10.run(ctx) + r10.r10g(ctx) + r6p.r6p(ctx) + r10.r10j(ctx)
+    return r10.run(ctx) + r10.r10g(ctx) + r6p.r6p(ctx) + r6p.r6q(ctx) + r10.r10j(ctx) + r10.r10k(ctx)
 
 
 SPEC = PropSpec(
@@ -26,10 +26,11 @@ SPEC = PropSpec(
         "backend -- as a regular node of a derived circuit's parameter graph it would be registered a second time (not 'exactly "
         "once') and re-initialised by the reset_parameters() ending the derived circuit's compilation, overwriting loaded values."
         " R10j: TorchCircuit.reset_parameters visits, for every layer, its params and (recursively) the layers in its sub_modules -- the tensors of a layer wrapped by an evidence layer are allocated and initialised with the rest."
+        " R6q: no loop over torch's module-tree traversals (modules / children / parameters ..) applies a reset, an in-place write or an initialiser to its elements -- the tree contains the tensors pointer nodes refer to."
+        " R10k ('exactly once' for derived circuits): the pointer class must not keep its target in a plain module-valued attribute, which nn.Module registers as a child (known finding D26: it does, so the state dict of a derived circuit lists each operand tensor once per pointer)."
     ),
     not_decided=(
-        "torch's own state_dict / load_state_dict semantics; that a fresh compilation enumerates modules in the same order; 'exactly "
-        "once' for tensors reachable through pointers of derived circuits; numerical equality of the outputs."
+        "torch's own state_dict / load_state_dict semantics; that a fresh compilation enumerates modules in the same order; numerical equality of the outputs."
     ),
     run=run,
     floors={"R6p": 4, "R10a": 15, "R10b": 12, "R10c": 3, "R10d": 2, "R10e": 3, "R10f": 50, "R10g": 60},
